@@ -17,6 +17,21 @@ pub fn set_store_overrides(overrides: Option<(usize, usize)>) {
     STORE_OVERRIDES.with(|c| c.set(overrides));
 }
 
+thread_local! {
+    /// capacity of the driver's local command channel for the next `build_node` / `build_client` on this thread
+    static LOCAL_CMD_CHANNEL_SIZE: Cell<Option<usize>> = const { Cell::new(None) };
+}
+
+/// Override the capacity of the channel that carries `LocalSwarmCmd`s to the driver (shipped value:
+/// `NETWORKING_CHANNEL_SIZE`), so that a harness can reach "the channel is full" with a handful of commands.
+pub fn set_local_cmd_channel_size(size: Option<usize>) {
+    LOCAL_CMD_CHANNEL_SIZE.with(|c| c.set(size));
+}
+
+pub(crate) fn local_cmd_channel_size() -> Option<usize> {
+    LOCAL_CMD_CHANNEL_SIZE.with(|c| c.get())
+}
+
 pub(crate) fn apply_store_overrides(mut cfg: NodeRecordStoreConfig) -> NodeRecordStoreConfig {
     if let Some((max_records, cache_size)) = STORE_OVERRIDES.with(|c| c.get()) {
         cfg.max_records = max_records;
